@@ -1,7 +1,9 @@
 import Lean.Data.Json
 import Verif.Model.Session
+import Verif.Gen.SessionId
 open Lean
 -- DRIVER: session
+-- DRIVER: sessionid
 namespace Verif.Drv.Session
 open Verif.Model.Session
 
@@ -54,6 +56,25 @@ def getOp (j : Json) : Except String (Int × Op Int Json Json) := do
         | some v => (some <$> v.getInt?)
         | none => pure none
       pure (Op.init sid (← (← o.getObjVal? "id").getInt?) (optField o "client") (optField o "version"))
+    | "IS" =>
+      let o ← j.getArrVal? 2
+      let sid ← match optField o "sid" with
+        | some v => (some <$> v.getInt?)
+        | none => pure none
+      pure (Op.initSilent sid (← (← o.getObjVal? "id").getInt?) (optField o "client") (optField o "version"))
+    | "M" =>
+      let v ← j.getArrVal? 2
+      let sid ← match v with
+        | .null => pure none
+        | _ => (some <$> v.getInt?)
+      let k ← match (← (← j.getArrVal? 3).getStr?) with
+        | "noMethod" => pure MsgKind.noMethod
+        | "unknownMethod" => pure MsgKind.unknownMethod
+        | "handlerReturned" => pure MsgKind.handlerReturned
+        | "handlerRaised" => pure MsgKind.handlerRaised
+        | "handlerNonsense" => pure MsgKind.handlerNonsense
+        | s => throw s!"unknown message kind {s}"
+      pure (Op.message sid k)
     | "R" =>
       let v ← j.getArrVal? 2
       match v with
@@ -68,6 +89,11 @@ def lookupAnswer (tbl : List (Option Json × Json)) (rq : Option Json) : Json :=
   | none => Json.null
 
 def handle (j : Json) : Except String Json := do
+  if (j.getObjValAs? String "m").toOption == some "sessionid" then
+    -- {"m":"sessionid","u":[code points of the uuid's text]} -> {"id":[code points]}
+    let u ← j.getObjValAs? (Array Nat) "u"
+    let r := Verif.Gen.SessionId.sessionIdOfUuid (u.toList.map Char.ofNat)
+    return Json.mkObj [("id", toJson (r.map (·.toNat)))]
   let ops ← (← j.getObjValAs? (Array Json) "ops").toList.mapM getOp
   let tbl ← match optField j "answers" with
     | some (.arr a) => a.toList.mapM (fun e => do
